@@ -22,6 +22,7 @@ type Event struct {
 	Cond  smt.Term // extra condition under which the event happened (true)
 	Names []string // callee parameter names aligned with Args (may be empty)
 	Rets  []Value  // results, when known (contract calls, dyncalls)
+	Quiet bool     // pure / silent / inlined: not counted by nevents()
 }
 
 // State is one symbolic path state.
@@ -44,6 +45,7 @@ type State struct {
 	havocked []havocMark
 	defers   map[*Frame][]deferred
 	pcSeen   map[string]bool
+	localCells map[string][]smt.Term // heap key -> refs of local variables of the running frames (escaping Allocs)
 }
 
 func (st *State) clone() *State {
@@ -109,6 +111,12 @@ func (st *State) clone() *State {
 		}
 	}
 	n.havocked = append([]havocMark(nil), st.havocked...)
+	if st.localCells != nil {
+		n.localCells = make(map[string][]smt.Term, len(st.localCells))
+		for k, v := range st.localCells {
+			n.localCells[k] = append([]smt.Term(nil), v...)
+		}
+	}
 	if st.pcSeen != nil {
 		n.pcSeen = make(map[string]bool, len(st.pcSeen))
 		for k, v := range st.pcSeen {
@@ -176,6 +184,10 @@ func (e *Engine) heapArr(st *State, key string, idx, el smt.Sort) smt.Term {
 	if t, ok := st.heap[key]; ok {
 		return t
 	}
+	if st.gen != 0 && e.w.fieldImmutable(key) {
+		// never assigned after construction: the same array in every generation
+		return e.ctx.Const(fmt.Sprintf("H0<%s>", key), smt.ArrayOf(idx, el))
+	}
 	// a key first touched after a prefix havoc must not see the pre-havoc default
 	for i := len(st.havocked) - 1; i >= 0; i-- {
 		p := st.havocked[i].prefix
@@ -193,10 +205,40 @@ func (e *Engine) setHeapArr(st *State, key string, t smt.Term) {
 // havocAll forgets the whole heap (and mutable globals).
 func (e *Engine) havocAll(st *State) {
 	e.genCounter++
-	// keep arrays private to this path? (not tracked) – everything is forgotten
-	st.heap = map[string]smt.Term{}
+	// fields that are never assigned after construction keep their arrays; everything else is forgotten
+	keep := map[string]smt.Term{}
+	for k := range e.heapKeys {
+		if e.w.fieldImmutable(k) {
+			hk := e.heapKeys[k]
+			keep[k] = e.heapArr(st, k, hk.Idx, hk.Elem)
+		}
+	}
+	// local variables held in heap cells (captured by closures) belong to the running function: code that
+	// "may modify anything" cannot reach them (no callback runs during the call: non-interference assumption)
+	type saved struct {
+		key string
+		ref smt.Term
+		val smt.Term
+	}
+	var cells []saved
+	for _, k := range sortedKeys(st.localCells) {
+		hk, ok := e.heapKeys[k]
+		if !ok {
+			continue
+		}
+		arr := e.heapArr(st, k, hk.Idx, hk.Elem)
+		for _, r := range st.localCells[k] {
+			cells = append(cells, saved{k, r, e.ctx.Name("keep", smt.Select(arr, r))})
+		}
+	}
+	st.heap = keep
 	st.havocked = nil
 	st.gen = e.genCounter
+	for _, c := range cells {
+		hk := e.heapKeys[c.key]
+		arr := e.heapArr(st, c.key, hk.Idx, hk.Elem)
+		e.setHeapArr(st, c.key, smt.Store(arr, c.ref, c.val))
+	}
 	st.globals = nil
 	nc := e.ctx.Fresh("clk", smt.Int)
 	st.assume(smt.IntBin(">=", nc, st.clock))
